@@ -226,7 +226,8 @@ def main():
     # ---- coverage
     for o, n in sorted(outcomes.items()):
         chk.outcome(o, n)
-        chk.cls(o.split(':')[0], n)
+        if ':' in o:
+            chk.cls(o.split(':')[0], n)
     if not chk.caps:
         for o in VACUITY:
             if outcomes.get(o, 0) == 0:
